@@ -54,6 +54,7 @@ TABLE = {
     ('large', 'len-'): TAW, ('large', 'len+'): TAW, ('large', 'len0'): TAW, ('large', 'flags'): TAW,
     ('as4_path', 'truncated-segment'): DISCARD, ('as4_path', 'bad-type'): DISCARD, ('as4_path', 'flags'): TAW,
     ('as4_aggregator', 'len-'): DISCARD, ('as4_aggregator', 'len+'): DISCARD, ('as4_aggregator', 'flags'): TAW,
+    ('as_path', 'other-width'): TAW, ('aggregator', 'other-width'): DISCARD,
     ('*', 'overrun-last'): TAW, ('*', 'header-truncated'): TAW, ('*', 'overrun-mid'): TAW,
     ('*', 'duplicate'): 'dup',
     ('mp_reach', 'nh-len'): RESET, ('mp_reach', 'nlri-truncated'): RESET, ('mp_reach', 'short'): RESET, ('mp_reach', 'duplicate'): RESET, ('mp_reach', 'flags'): RESET,
@@ -68,7 +69,7 @@ OPTIONAL_ADD = {
 
 
 def counts(tier: str):
-    return (300, 75.0) if tier == 'quick' else (20000, 900.0)
+    return (1500, 75.0) if tier == 'quick' else (40000, 900.0)
 
 
 def base_plan(rng, ibgp: bool, asn4: bool, carrier: str, cell) -> dict:
@@ -83,6 +84,9 @@ def generate(rng, tier: str, index: int) -> dict:
     if cell[0] in ('as4_path', 'as4_aggregator'):
         asn4 = False
     p = base_plan(rng, rng.chance(0.5), asn4, rng.choice(['v4', 'v4', 'mp6', 'both']), cell)
+    p['prime'] = rng.chance(0.4) or cell[1] == 'other-width'
+    if p['prime'] and rng.chance(0.8):
+        p['carrier'] = 'v4'  # the decoder's one-entry attribute cache only covers UPDATEs without MP attributes
     if cell[0] in ('mp_reach',) and p['carrier'] == 'v4':
         p['carrier'] = 'mp6'
     p.update({'micro_seed': rng.randint(1, 1 << 48), 'knobs': knobs(rng), 'split_p': rng.choice([0.0, 0.3]), 'gap': rng.choice([0.02, 0.1])})
@@ -102,7 +106,7 @@ def grid(tier: str):
                 i += 1
                 rng = Rng(7000 + i)
                 p = base_plan(rng, ibgp, cell[0] not in ('as4_path', 'as4_aggregator'), carrier, cell)
-                p.update({'micro_seed': 7000 + i, 'knobs': {'tick': 0.002, 'drift': 0.0, 'wall_step': 0.0}, 'split_p': 0.0, 'gap': 0.05})
+                p.update({'micro_seed': 7000 + i, 'knobs': {'tick': 0.002, 'drift': 0.0, 'wall_step': 0.0}, 'split_p': 0.0, 'gap': 0.05, 'prime': cell[1] == 'other-width'})
                 plans.append(p)
     return plans
 
@@ -215,6 +219,14 @@ def build(plan: dict):
         elif corr == 'bad-type':
             val = bytes([rng.choice([0, 5, 9, 255])]) + val[1:] if val else bytes([9, 1, 0, 1])
             detail = f'segment type {val[0]}'
+        elif corr == 'other-width':
+            # the encoding of the other AS-number width: well-formed there, malformed here
+            if target == 'as_path':
+                asns = [k['peer_as'] if k['peer_as'] <= 65535 else 65002, 65010, 65011]
+                val = R.enc_as_path([(2, asns if not k['asn4'] else asns[:2])], not k['asn4'])
+            else:
+                val = (65010).to_bytes(2 if k['asn4'] else 4, 'big') + bytes([10, 0, 0, 7])
+            detail = f'{"2" if k["asn4"] else "4"}-byte AS encoding on a {"4" if k["asn4"] else "2"}-byte session'
         elif corr == 'overrun-count':
             val = val[:1] + bytes([val[1] + rng.choice([1, 2, 50])]) + val[2:] if len(val) > 1 else bytes([2, 3, 0, 1])
             detail = 'segment count beyond the attribute'
@@ -285,7 +297,15 @@ def execute(plan: dict) -> dict:
         spec['addpath'] = [(a, s, 2) for a, s in ap]
     sp = Speaker(w, 'p0', k['peer_ip'], k['peer_as'], k['peer_ip'], LOCAL, hold=180, caps=speaker_caps(spec))
     ctx = R.Ctx(asn4=k['asn4'], addpath={f: True for f in ap})
-    w.boot(config_text([{'name': 'h1'}], [conf]))
+    confs = [conf]
+    sp2 = None
+    if plan.get('prime'):
+        # a second peer of the other AS-number width receives the very same bytes just before
+        conf2 = dict(conf, peer_ip='10.0.0.3', caps=dict(conf['caps'], asn4=not k['asn4']), api={'processes': ['h1'], 'receive': ['parsed', 'update']})
+        spec2 = dict(spec, asn4=not k['asn4'])
+        sp2 = Speaker(w, 'p1', '10.0.0.3', k['peer_as'], '10.0.0.3', LOCAL, hold=180, caps=speaker_caps(spec2))
+        confs.append(conf2)
+    w.boot(config_text([{'name': 'h1'}], confs))
     h = w.procs.helper('h1')
     w.net.split_p = plan.get('split_p', 0.0)
     good, bad, exp = build(plan)
@@ -305,10 +325,20 @@ def execute(plan: dict) -> dict:
             if sess.state != 'closed':
                 stage['sent_bad_at'] = w.loop.mono
                 snap['rib_before'] = rib_keys()
-                sess.send(bad)
+                other = sp2.established() if sp2 is not None else None
+
+                def now_bad() -> None:
+                    if sess.state != 'closed':
+                        sess.send(bad)
+                        w.after(g, lambda: sess.send(benign) if sess.state != 'closed' else None)
+
+                if other is not None:
+                    other.send(bad)
+                    w.after(0.004, now_bad)
+                else:
+                    now_bad()
 
         w.after(0.2 + g, send_bad)
-        w.after(0.2 + 2 * g, lambda: sess.send(benign) if sess.state != 'closed' else None)
 
     def rib_keys() -> dict:
         peer = w.peer_for(k['peer_ip'])
@@ -325,7 +355,7 @@ def execute(plan: dict) -> dict:
     violations: list[dict] = []
     probes: dict = {}
     w.at_end.append(lambda: judge(w, plan, sp, ctx, h, good, bad, exp, stage, rib_keys, violations, probes))
-    w.run(until=3.0 + 3 * plan['gap'])
+    w.run(until=3.5 + 3 * plan['gap'])
     probes['cell:' + plan['cell'][0] + '/' + plan['cell'][1]] = 1
     return result(w, violations[:1], probes=probes, faults={'corrupted_attribute': 1, 'segmented_delivery': 1 if plan.get('split_p') else 0}, nontrivial=stage['sent_bad_at'] is not None,
                   sample={'cell': plan['cell'], 'kind': _kd(k), 'carrier': plan['carrier'], 'what': exp['detail']})  # fmt: skip
